@@ -615,10 +615,20 @@ func (p *Path) loadCell(ptr Ptr, k int) Value {
 	if ptr.Sym == nil {
 		return o.get(ptr.Off + k)
 	}
-	vals := make([]Value, len(ptr.Cands))
+	// candidates whose cell does not exist are infeasible (bounds were checked)
+	var cands []int
+	for _, c := range ptr.Cands {
+		if ptr.Off+c+k >= 0 && ptr.Off+c+k < o.N {
+			cands = append(cands, c)
+		}
+	}
+	if len(cands) == 0 {
+		p.unsup("symbolic pointer without feasible target")
+	}
+	vals := make([]Value, len(cands))
 	allTerm := true
 	allSame := true
-	for i, c := range ptr.Cands {
+	for i, c := range cands {
 		vals[i] = o.get(ptr.Off + c + k)
 		if _, ok := vals[i].(*Term); !ok {
 			allTerm = false
@@ -631,8 +641,8 @@ func (p *Path) loadCell(ptr Ptr, k int) Value {
 		return vals[0]
 	}
 	if !allTerm {
-		cs := make([]uint64, len(ptr.Cands))
-		for i, c := range ptr.Cands {
+		cs := make([]uint64, len(cands))
+		for i, c := range cands {
 			cs[i] = uint64(int64(c))
 		}
 		p.concretize(ptr.Sym, cs)
@@ -641,7 +651,7 @@ func (p *Path) loadCell(ptr Ptr, k int) Value {
 	ts := p.ts()
 	res := vals[len(vals)-1].(*Term)
 	for i := len(vals) - 2; i >= 0; i-- {
-		res = ts.Ite(ts.Eq(ptr.Sym, ts.Const(uint64(int64(ptr.Cands[i])), 64)), vals[i].(*Term), res)
+		res = ts.Ite(ts.Eq(ptr.Sym, ts.Const(uint64(int64(cands[i])), 64)), vals[i].(*Term), res)
 	}
 	return res
 }
@@ -699,6 +709,9 @@ func (p *Path) storeCell(ptr Ptr, k int, v Value) {
 	}
 	ts := p.ts()
 	for _, c := range ptr.Cands {
+		if ptr.Off+c+k < 0 || ptr.Off+c+k >= o.N {
+			continue
+		}
 		old := o.get(ptr.Off + c + k)
 		ot, ok := old.(*Term)
 		if !ok {
@@ -781,6 +794,18 @@ func (p *Path) addOffset(ptr Ptr, idx *Term, stride int, n int) Ptr {
 		}
 		cands = sortedUnique(cands)
 		ptr.Sym = ts.Add(ptr.Sym, contrib)
+	}
+	// candidates outside the object are infeasible (bounds were checked):
+	// drop them so that loads never touch cells that do not exist
+	if ptr.Obj != 0 {
+		o := p.obj(ptr.Obj)
+		kept := cands[:0:0]
+		for _, c := range cands {
+			if ptr.Off+c >= 0 && ptr.Off+c <= o.N {
+				kept = append(kept, c)
+			}
+		}
+		cands = kept
 	}
 	ptr.Cands = cands
 	return ptr
